@@ -164,7 +164,8 @@ CLAIMED = {
                  'task); marks are stable; caller cancellation surfaces as CancelledError only (C13_*). All programs, all continuations: '
                  'once manager.run has left, every further step of any task, body, timer or canceller creates no task and reports '
                  'nothing but task endings (C13_after_cleanup_nothing_starts, C13_after_return_nothing_ever_starts, by induction over '
-                 'the continuation). Tie additionally cancels the '
+                 'the continuation); in such a state the section of a task ends it and finished tasks are never stepped again, so every '
+                 'task runs at most one more section (C13_section_after_the_end_finishes_its_task). Tie additionally cancels the '
                  'caller before every loop handle of a base schedule per program and drains the loop afterwards.', '§6 C13'),
     'C14': sched('Proof (general, local tier): on_pipeline_start first; on_pipeline_complete carries the returned outcome; a node '
                  'execution starts with on_node_start in the section that marks it processed; one on_node_complete per raising '
